@@ -274,8 +274,8 @@ pub fn g_par_dec<T: BlockCipherDecrypt>(c: &T) -> usize {
     p
 }
 
-/// Direct backend call: exactly one `*_par_blocks` on the first `par` blocks (if there are that
-/// many) and `*_tail_blocks` on the rest, buffer-to-buffer.
+/// Direct backend call: `*_par_blocks` on each full group of `par` blocks and `*_tail_blocks` on the
+/// remaining (< par) blocks, buffer-to-buffer, bypassing the `cipher` crate's chunking loop.
 struct DirectE<'a, BS> {
     inp: &'a [u8],
     out: &'a mut Vec<u8>,
@@ -290,12 +290,12 @@ impl<BS: cipher::crypto_common::BlockSizes> BlockCipherEncClosure for DirectE<'_
         let (ib, _) = Array::<u8, BS>::slice_as_chunks(self.inp);
         let mut ob: Vec<Array<u8, BS>> = vec![Array::<u8, BS>::default(); ib.len()];
         let mut done = 0;
-        if ib.len() >= par {
-            let pin = Array::<Array<u8, BS>, B::ParBlocksSize>::from_slice(&ib[..par]);
+        while ib.len() - done >= par {
+            let pin = Array::<Array<u8, BS>, B::ParBlocksSize>::from_slice(&ib[done..done + par]);
             let mut pout = Array::<Array<u8, BS>, B::ParBlocksSize>::default();
             backend.encrypt_par_blocks(InOut::from((pin, &mut pout)));
-            ob[..par].clone_from_slice(&pout);
-            done = par;
+            ob[done..done + par].clone_from_slice(&pout);
+            done += par;
         }
         let (_, tail_out) = ob.split_at_mut(done);
         if let Ok(buf) = InOutBuf::new(&ib[done..], tail_out) {
@@ -320,12 +320,12 @@ impl<BS: cipher::crypto_common::BlockSizes> BlockCipherDecClosure for DirectD<'_
         let (ib, _) = Array::<u8, BS>::slice_as_chunks(self.inp);
         let mut ob: Vec<Array<u8, BS>> = vec![Array::<u8, BS>::default(); ib.len()];
         let mut done = 0;
-        if ib.len() >= par {
-            let pin = Array::<Array<u8, BS>, B::ParBlocksSize>::from_slice(&ib[..par]);
+        while ib.len() - done >= par {
+            let pin = Array::<Array<u8, BS>, B::ParBlocksSize>::from_slice(&ib[done..done + par]);
             let mut pout = Array::<Array<u8, BS>, B::ParBlocksSize>::default();
             backend.decrypt_par_blocks(InOut::from((pin, &mut pout)));
-            ob[..par].clone_from_slice(&pout);
-            done = par;
+            ob[done..done + par].clone_from_slice(&pout);
+            done += par;
         }
         let (_, tail_out) = ob.split_at_mut(done);
         if let Ok(buf) = InOutBuf::new(&ib[done..], tail_out) {
